@@ -36,6 +36,7 @@ structure RodasEnv (α : Type) where
   tspan : List α
   opt : RodasOpt α
   events : List (EventSpec α)
+  fixSlack : α := O.ofNat 1  -- `1 + 1e-8` in the code: a fixed-step run takes the remainder as its last step when t + h·slack ≥ tend
 
 structure RodasState (α : Type) where
   t : α
@@ -49,6 +50,7 @@ structure RodasState (α : Type) where
   stop : Bool
   tevent : Option α
   value : List α            -- event values at the end of the last full step
+  vref : List α             -- `valueold`: per component the last *nonzero* value at a step end (what the next step compares with)
   te : List α               -- reversed
   ie : List Nat             -- reversed
   nstep : Nat
@@ -74,15 +76,22 @@ def init : RodasState α :=
   let dt1 := E.omin (E.omax dt0 E.hmin) E.hmaxV
   { t := E.t0, dt := dt1, told := E.t0, reject := 0, facmax := E.opt.facmax, T := [E.t0],
     inext := 1, tnext := if E.dense then E.tspan.getD 1 E.O.zero else E.O.zero,
-    stop := false, tevent := none, value := E.evalEvents E.t0, te := [], ie := [],
+    stop := false, tevent := none, value := E.evalEvents E.t0, vref := E.evalEvents E.t0, te := [], ie := [],
     nstep := 0, nreject := 0, failed := false, done := false, attempts := 0 }
+
+/-- `np.sign(a) * np.sign(b) < 0`: strictly opposite signs (products of small values may underflow) -/
+def opp (a b : α) : Bool :=
+  (E.O.lt E.O.zero a && E.O.lt b E.O.zero) || (E.O.lt a E.O.zero && E.O.lt E.O.zero b)
+
+/-- `a == 0` -/
+def isZero (a : α) : Bool := E.O.le a E.O.zero && E.O.le E.O.zero a
 
 /-- one pass of the bisection body: (bracket changed?, tL, tR, tevent, v0, v1) -/
 def bisectStep (i : Nat) (st : α × α × α × α × α) : Bool × (α × α × α × α × α) :=
   let (tL, tR, tev, v0, v1) := st
   let vi := (E.evalEvents tev).getD i E.O.zero
-  if E.O.lt (E.O.mul v1 vi) E.O.zero then (true, (tev, tR, E.O.mul E.half (E.O.add tev tR), vi, v1))
-  else if E.O.lt (E.O.mul v0 vi) E.O.zero then (true, (tL, tev, E.O.mul E.half (E.O.add tL tev), v0, vi))
+  if E.opp v1 vi then (true, (tev, tR, E.O.mul E.half (E.O.add tev tR), vi, v1))
+  else if E.opp v0 vi then (true, (tL, tev, E.O.mul E.half (E.O.add tL tev), v0, vi))
   else (false, (tL, tR, tev, v0, v1))
 
 /-- the bisection `while iterate > 0` loop for component `i`; returns tevent and the last point at
@@ -106,8 +115,8 @@ def isTerminal (i : Nat) : Bool := (E.events.getD i ⟨E.O.zero, 0, false⟩).te
 /-- secant start and bisection on the (possibly already truncated) step `[s.told, s.t]`;
 returns the event time and the last point at which the event function was evaluated -/
 def locate (dt : α) (s : RodasState α) (v0 v1 : α) (i : Nat) : α × Option α :=
-  let tol := E.omin (E.O.mul E.c128 (E.omax (E.spacing s.told) (E.spacing s.t))) (E.O.abs (E.O.sub s.t s.told))
-  if E.O.lt E.uround (E.O.abs (E.O.sub v1 v0)) then
+  let tol := E.omin (E.O.mul E.c128 (E.omax (E.O.abs (E.spacing s.told)) (E.O.abs (E.spacing s.t)))) (E.O.abs (E.O.sub s.t s.told))
+  if !(E.O.le v1 v0 && E.O.le v0 v1) then       -- `v1 != v0` (was `abs(v1 - v0) > uround`: small-valued event functions were not searched)
     let guess := E.O.sub s.told (E.O.div (E.O.mul v0 dt) (E.O.sub v1 v0))
     E.bisect i tol 100 (s.told, s.t, guess, v0, v1) none
   else (s.t, none)
@@ -165,13 +174,21 @@ def emitDense (dt : α) : Nat → RodasState α → RodasState α
 /-- is the remaining interval covered by the proposed step (`t + dt >= tend`)? -/
 def stretch (s : RodasState α) : Bool := E.O.le E.tend (E.O.add s.t s.dt)
 
+/-- the adaptive proposal, stretched / halved near the end -/
+def adaptDt (s : RodasState α) : α :=
+  if E.stretch s then E.O.sub E.tend s.t else E.omin s.dt (E.O.mul E.half (E.O.sub E.tend s.t))
+
+/-- fixed-step mode: `t + hinit * (1 + 1e-8) >= tend` — the remainder is the last step -/
+def fixLast (s : RodasState α) : Bool :=
+  E.O.le E.tend (E.O.add s.t (E.O.mul (E.opt.hinit.getD (E.adaptDt s)) E.fixSlack))
+
 /-- the step actually attempted -/
 def stepDt (s : RodasState α) : α :=
-  if E.opt.fixH then E.opt.hinit.getD (if E.stretch s then E.O.sub E.tend s.t else E.omin s.dt (E.O.mul E.half (E.O.sub E.tend s.t)))
-  else if E.stretch s then E.O.sub E.tend s.t else E.omin s.dt (E.O.mul E.half (E.O.sub E.tend s.t))
+  if E.opt.fixH then (if E.fixLast s then E.O.sub E.tend s.t else E.opt.hinit.getD (E.adaptDt s))
+  else E.adaptDt s
 
 /-- `last_step`: the end point is assigned, not computed -/
-def isLast (s : RodasState α) : Bool := E.stretch s && !E.opt.fixH
+def isLast (s : RodasState α) : Bool := if E.opt.fixH then E.fixLast s else E.stretch s
 
 /-- the proposal for the next step size -/
 def dtNew (fac0 : α) (s : RodasState α) : α :=
@@ -181,13 +198,22 @@ def dtNew (fac0 : α) (s : RodasState α) : α :=
 def advance (s : RodasState α) : RodasState α :=
   { s with reject := 0, told := s.t, t := if E.isLast s then E.tend else E.O.add s.t (E.stepDt s), nstep := s.nstep + 1 }
 
+/-- `valueold = np.where(value == 0, valueold, value)`: a component that is exactly zero at a step end keeps its last nonzero
+value as the reference for the next comparison -/
+def refValues (s1 : RodasState α) : List α :=
+  List.zipWith (fun v r => if E.isZero v then r else v) s1.value s1.vref
+
+/-- `ff`: the components whose value at the end of the step has the sign opposite to the reference -/
+def crossings (s1 : RodasState α) : List Nat :=
+  (List.range E.events.length).filter fun i =>
+    E.opp ((E.evalEvents s1.t).getD i E.O.zero) ((E.refValues s1).getD i E.O.zero)
+
 def doEvents (dt : α) (s1 : RodasState α) : RodasState α :=
   if E.events.isEmpty then s1
   else
+    let vref := E.refValues s1
     let valueNew := E.evalEvents s1.t
-    let ff := (List.range E.events.length).filter fun i =>
-      E.O.lt (E.O.mul (valueNew.getD i E.O.zero) (s1.value.getD i E.O.zero)) E.O.zero
-    E.eventLoop dt s1.value valueNew ff { s1 with value := valueNew }
+    E.eventLoop dt vref valueNew (E.crossings s1) { s1 with value := valueNew, vref := vref }
 
 def output (dt : α) (s2 : RodasState α) : RodasState α :=
   if E.dense then E.emitDense dt (E.tspan.length + 1) s2 else { s2 with T := s2.t :: s2.T }
